@@ -520,6 +520,69 @@ fn judge_include_in_arm(ic: &IncCase, l: &mut Local) {
 }
 
 // ---------------------------------------------------------------------------------------------
+// family `ruledef-in-arm`: a rule block is content of the arm it stands in like anything else: its rules exist when the
+// arm is live (whatever other rule blocks, named or not, stand before or after it) and do not when it is dead.
+// The model sees the instructions as the bytes they stand for.
+
+fn ruledef_in_arm_cases() -> Vec<(Case, String)> {
+    let mut out = vec![];
+    let m = |k: u8| Item::Marker(k);
+    for live in [true, false] {
+        for arm_first in [true, false] {
+            for nested in [false, true] {
+                for arm_named in [false, true] {
+                    for top_blocks in 0..3usize {
+                        // 0: no rule block at the top level, 1: one anonymous, 2: one anonymous and one named
+                        let arm_block = Item::Func("__rd_arm__".into());
+                        let inner = if nested { vec![Item::If(vec![(E::Bool(true), vec![arm_block.clone(), m(0x31)])], None)] } else { vec![arm_block.clone(), m(0x31)] };
+                        let chain = Item::If(vec![(v("A"), inner)], Some(vec![m(0x32)]));
+                        let mut prog = vec![konst("A", E::Bool(live)), m(0x10)];
+                        let tops: Vec<Item> = (0..top_blocks).map(|k| Item::Func(format!("__rd_top{}__", k))).collect();
+                        if arm_first {
+                            prog.push(chain);
+                            prog.extend(tops.iter().cloned());
+                        } else {
+                            prog.extend(tops.iter().cloned());
+                            prog.push(chain);
+                        }
+                        if live {
+                            prog.push(m(0x11));
+                        }
+                        if top_blocks >= 1 {
+                            prog.push(m(0x22));
+                        }
+                        if top_blocks >= 2 {
+                            prog.push(m(0x23));
+                        }
+                        prog.push(m(0x40));
+                        let mut text = String::new();
+                        for line in text_of(&prog).lines() {
+                            let t = line.trim_start();
+                            let pad = &line[..line.len() - t.len()];
+                            let r = match t {
+                                "#fn __rd_arm__(x) => x + 1" => format!("#ruledef{}\n{}{{\n{}    one => 0x11\n{}}}", if arm_named { " armrules" } else { "" }, pad, pad, pad),
+                                "#fn __rd_top0__(x) => x + 1" => format!("#ruledef\n{}{{\n{}    two => 0x22\n{}}}", pad, pad, pad),
+                                "#fn __rd_top1__(x) => x + 1" => format!("#ruledef toprules\n{}{{\n{}    three => 0x23\n{}}}", pad, pad, pad),
+                                "#d8 0x11" => "one".to_string(),
+                                "#d8 0x22" => "two".to_string(),
+                                "#d8 0x23" => "three".to_string(),
+                                other => other.to_string(),
+                            };
+                            text += pad;
+                            text += &r;
+                            text.push('\n');
+                        }
+                        let coord = format!("live{} arm_first{} nested{} arm_named{} top_blocks{}", live, arm_first, nested, arm_named, top_blocks);
+                        out.push((Case { family: "ruledef-in-arm", coord, prog, defines: vec![] }, text));
+                    }
+                }
+            }
+        }
+    }
+    out
+}
+
+// ---------------------------------------------------------------------------------------------
 // family `tree`: condition trees
 
 #[derive(Clone, Debug)]
@@ -1244,6 +1307,10 @@ pub fn run(ctx: &Ctx) -> Report {
     if want("include-in-arm") {
         let ia = include_in_arm_cases();
         rep.absorb(par_cases(&ia, judge_include_in_arm));
+    }
+    if want("ruledef-in-arm") {
+        let ra = ruledef_in_arm_cases();
+        rep.absorb(par_cases(&ra, |(c, text), l| judge_text(c, text.clone(), 30, l)));
     }
     if want("long") {
         let longs = long_cases();
